@@ -23,6 +23,8 @@ inductive HRes
 /-- one incoming message as the handler sees it, together with the inputs the environment chooses during the call: the
     random draw and clock value (used only if the id has to be created) and whether the connection takes the reply -/
 structure Incoming where
+  /-- the message is a method call (and not a signal, a return or an error that merely names the Peer interface) -/
+  isCall : Bool
   call : Hdr
   iface : Option (List Char)
   member : Option (List Char)
@@ -33,8 +35,8 @@ structure Incoming where
   deriving Repr, DecidableEq
 
 /-- `handle_peer_message(msg, con)`: result, what was written to the connection, the id file afterwards.
-    The id is fetched (and created) BEFORE the send, so a refused send still leaves the created id stored. -/
-def handlePeerMessage (m : Incoming) (cell : Option (List Char)) : HRes × List Reply × Option (List Char) :=
+    Only method calls are answered. The id is fetched (and created) BEFORE the send, so a refused send still leaves the created id stored. -/
+def handleCall (m : Incoming) (cell : Option (List Char)) : HRes × List Reply × Option (List Char) :=
   match handlePeer m.iface m.member with
   | .notHandled => (.ok false, [], cell)
   | .replied false =>
@@ -42,6 +44,9 @@ def handlePeerMessage (m : Incoming) (cell : Option (List Char)) : HRes × List 
   | .replied true =>
     let (id, cell') := getMachineId cell m.r1 m.r2 m.secs
     if m.wrote then (.ok true, [{ hdr := makeResponse m.call, body := some id }], cell') else (.sendErr, [], cell')
+
+def handlePeerMessage (m : Incoming) (cell : Option (List Char)) : HRes × List Reply × Option (List Char) :=
+  if m.isCall then handleCall m cell else (.ok false, [], cell)
 
 /-- a peer serving a sequence of incoming messages: per message the result and what was written -/
 def serve : Option (List Char) → List Incoming → List (HRes × List Reply)
